@@ -77,6 +77,10 @@ class SymArray(_np.ndarray):
     def __new__(cls, data):
         return _np.asarray(data, dtype=object).view(cls)
 
+    def __array_finalize__(self, obj):
+        # precision tag: which config.precision was in force when this array object came into being
+        self._prec_tag = current_precision_name()
+
     @property
     def real(self):
         return _map1(lambda v: v.real if isinstance(v, (Sx, _NaN)) else v, self)
@@ -143,6 +147,17 @@ class SymArray(_np.ndarray):
         if obj.dtype != object:
             return _np.asarray(obj)
         return obj.view(SymArray)
+
+
+def current_precision_name():
+    import sys
+    conf = sys.modules.get('prysm.conf')
+    if conf is None:
+        return None
+    try:
+        return getattr(conf.config.precision, 'name', None)
+    except Exception:   # noqa
+        return None
 
 
 def _fix_key(key):
